@@ -1672,8 +1672,8 @@ _BALANCE_ARMS = {
     "_balance_concat": (set(), (("truism.args[0].args",), ("truism.args[1]",)), "(a .. b) OP c => b OP low(c) needs a == 0 and the high bits of c == 0"),
     "_balance_lshift": (
         set(),
-        (("truism.args[0].args[0]",),),
-        "(x << k) OP c => x OP (c >> k) needs the k high bits of x to be 0 (they are shifted out), besides the low bits of c",
+        (("truism.args[0].args[0]",), ("truism.args[1]",)),
+        "(x << k) OP c => x OP (c >> k) needs the k high bits of x to be 0 (they are shifted out) and the k low bits of c to be 0 (c >> k rounds down: for < the bound would need rounding up)",
     ),
 }
 _BALANCE_EXACT = {
